@@ -440,11 +440,45 @@ def witness_f27(chk):
                       {"kind": "mismatch", "witness": "prelim/repro/c04_signed_part_select_shift.py", "classes": [F_SPART]})
 
 
+def witness_f9(chk):
+    """the recorded witness of F9, replayed on every run: Cat(t, t).bit_select(o, 1).eq(1) in the sync domain"""
+    from amaranth.hdl import Signal, Module, Cat, Period
+    from amaranth.back import rtlil
+    from amaranth.sim import Simulator
+
+    def design():
+        m = Module()
+        t, o = Signal(2, name="t"), Signal(1, name="o")
+        m.d.sync += Cat(t, t).bit_select(o, 1).eq(1)
+        return m, t, o
+    m, t, o = design()
+    got = {}
+
+    async def tb(ctx):
+        await ctx.tick()
+        got["sim"] = ctx.get(t)
+    sim = Simulator(m)
+    sim.add_clock(Period(MHz=1))
+    sim.add_testbench(tb)
+    sim.run()
+    m, t, o = design()
+    text = rtlil.convert(m, ports=[t, o], emit_src=False)
+    req = (f'(run {esc(text)} (init ("\\\\clk" 0) ("\\\\rst" 0) ("\\\\o" 0)) '
+           f'(events (("\\\\clk" 1))) (obs "\\\\t"))')
+    d = dict(tok.split("=", 1) for tok in chk.driver.ask([req])[0].split("\t") if "=" in tok)
+    rt = parse_rows(d["trace"])[1][0] if d.get("eval") == "ok" else None
+    chk.extra["f9_witness"] = {"simulator": got.get("sim"), "rtlil": rt, "driver": None if rt is not None else d}
+    if rt is not None and rt != got.get("sim"):
+        chk.violation(f"Cat(t, t).bit_select(o, 1).eq(1) at a clock edge: t is {got['sim']} in the simulator but {rt} in the RTLIL",
+                      {"kind": "mismatch", "witness": "harness/checks/c04.py witness_f9", "classes": [F_ALIAS]})
+
+
 def run(chk):
     if not chk.lean():
         chk.not_shown("Lean build of Properties/C04 failed", chk.build_log[-3000:])
         return
     witness_f27(chk)
+    witness_f9(chk)
     rng = chk.rng
     quick = chk.tier == "quick"
     n_main = 600 if quick else 12000
